@@ -70,6 +70,10 @@ CHECKS = {
          "explicit-state exhaustive search with the HTLC, farm and service drivers in block-safety mode: recover() around every real begin/end blocker, due-processing oracles (refund exactly at expiry, pool refund exactly at end height, batches exactly on schedule) and raw-queue-versus-object hygiene evaluated in every reached state",
          "Every sequence up to the depth bound including objects created, modified, paused, destroyed or re-scheduled in the block they fall due, several objects due at one height and block-time steps from 1 s to 21 days: no blocker panics or returns an error; every queue entry refers to an existing object awaiting processing at exactly its due height, every awaiting object has exactly one entry, nothing stays queued at a processed height, height markers agree with entries, no request stays active past its expiration.",
          "DESIGN.md §3 C13, appendix B"),
+ "C17": ("model_checking",
+         "explicit-state exhaustive search over create/start/pause/edit (creator and stranger)/respond (signed, zero, large, non-numeric, error)/drain/block/jump sequences on the real oracle+service keepers, exact big-rational reference of the per-feed value list compared through the queries in every state",
+         "Every sequence up to the depth bound over six fixtures (max/min/avg value sets with 3 providers, history shrink/grow, lifecycle with two feeds and funds draining, creation): each completed batch meeting its threshold appends exactly the configured aggregate (8 decimals) stamped with the block time, below threshold nothing; the list stays newest-first and within latest-history across edits; the feed state index always equals the service context state; only the creator starts, pauses or edits.",
+         "DESIGN.md §3 C17"),
 }
 NOT_YET = "check not built yet in this phase of the work (see DESIGN.md §6 change log); not claimed"
 
